@@ -76,6 +76,7 @@ def _store_nodes(node, name: str) -> List[ast.AST]:
 
 
 _BOUND_IN: Dict[int, Set[str]] = {}
+_ONCE: Dict[str, Set[str]] = {}
 
 
 def _flag_value(e: ast.expr, bound: Set[str]) -> bool:
@@ -87,6 +88,9 @@ def _flag_value(e: ast.expr, bound: Set[str]) -> bool:
     while isinstance(x, ast.Attribute):
         x = x.value
     if isinstance(x, ast.Name) and x.id not in bound:
+        return True
+    # a bound method of a local that is bound once (`lookup = conn.get`): the same callable wherever the flag is read
+    if isinstance(x, ast.Name) and isinstance(e, ast.Attribute) and x.id in _ONCE.get("names", set()):
         return True
     return False
 
@@ -463,9 +467,23 @@ def live_in(stmts: Sequence[ast.stmt], nm: str, noreturn: Set[str]) -> Optional[
             if a is False and b is False:
                 return False
             continue
+        if isinstance(s, (ast.For, ast.AsyncFor)) and any(isinstance(x, ast.Name) and x.id == nm for x in ast.walk(s.target)):
+            # the loop binds the name itself before its body reads it; with no iteration the old value flows on
+            if _uses(s.iter, nm) or _uses(s.orelse, nm):
+                return True
+            continue
+        if isinstance(s, (ast.For, ast.AsyncFor, ast.While)):
+            # (a loop that does not bind the name in its header) read in the header, or in the body before the body
+            # binds it again: live; a body that never reads it, or binds it first: the old value may still flow past
+            hdr = s.iter if isinstance(s, (ast.For, ast.AsyncFor)) else s.test
+            if _uses(hdr, nm) or _closure_uses(s, nm):
+                return True
+            if live_in(s.body, nm, noreturn) is True or live_in(s.orelse, nm, noreturn) is True:
+                return True
+            continue
         if _uses(s, nm):
             return True
-        if isinstance(s, (ast.For, ast.AsyncFor, ast.While, ast.Try, ast.With, ast.AsyncWith, ast.Match, ast.FunctionDef, ast.AsyncFunctionDef, ast.ClassDef)):
+        if isinstance(s, (ast.Try, ast.With, ast.AsyncWith, ast.Match, ast.FunctionDef, ast.AsyncFunctionDef, ast.ClassDef)):
             continue  # not read inside; a binding inside may or may not happen: keep looking
         if _ends([s], noreturn):
             return False
@@ -486,7 +504,13 @@ def live_after(fn: ast.AST, blk: List[ast.stmt], j: int, nm: str, noreturn: Set[
             return False
         b2, k, owner = up
         if isinstance(owner, (ast.For, ast.AsyncFor, ast.While)):
-            if _uses(owner, nm):
+            # around the back edge: live when the next iteration may read it before binding it again
+            if isinstance(owner, ast.While) and _uses(owner.test, nm):
+                return True
+            binds = isinstance(owner, (ast.For, ast.AsyncFor)) and any(isinstance(x, ast.Name) and x.id == nm for x in ast.walk(owner.target))
+            if not binds and live_in(owner.body, nm, noreturn) is True:
+                return True
+            if _uses(owner.orelse, nm):
                 return True
         if isinstance(owner, (ast.Try, ast.With, ast.AsyncWith, ast.Match)):
             if _uses(owner, nm) and isinstance(owner, ast.Try):
@@ -727,6 +751,13 @@ def sink_small_continuations(fn: ast.AST, noreturn: Set[str]) -> int:
 
 
 def run(fn: ast.AST, noreturn: Set[str]) -> int:
+    cnt: Dict[str, int] = {}
+    for x in ast.walk(fn):
+        if isinstance(x, ast.Name) and isinstance(x.ctx, (ast.Store, ast.Del)):
+            cnt[x.id] = cnt.get(x.id, 0) + 1
+        elif isinstance(x, ast.arg):
+            cnt[x.arg] = cnt.get(x.arg, 0) + 1
+    _ONCE["names"] = {k for k, v in cnt.items() if v == 1}
     n = drop_self_assignments(fn)
     for _k in range(4):
         e = expand_table_lookups(fn)
